@@ -535,6 +535,14 @@ class DataFormat(object):
             check_distinct(KEY_ITEM_DELIMITER, KEY_LINE_DELIMITER)
             check_distinct(KEY_ITEM_DELIMITER, KEY_QUOTE_CHARACTER)
             check_distinct(KEY_LINE_DELIMITER, KEY_QUOTE_CHARACTER)
+            if self.escape_character != self.quote_character:
+                check_distinct(KEY_ESCAPE_CHARACTER, KEY_ITEM_DELIMITER)
+            if self.item_delimiter in ("\n", "\r"):
+                # Python's csv module always considers line feed and carriage return the end of a row.
+                raise errors.InterfaceError(
+                    "'%s' is %s but must be different from line feed and carriage return"
+                    % (KEY_ITEM_DELIMITER, _compat.text_repr(self.item_delimiter))
+                )
         self._is_valid = True
 
     def __str__(self):
